@@ -139,6 +139,7 @@ pub fn explore<W: TW>(rep: &Report, prop: &str, depth: usize, cap: usize, do_sam
         }
     }
     let lam = lambda_words();
+    let mut prev_tree: Option<WeightedTreeIndex<W>> = None;
     while let Some((tree, list, d, hist, mag)) = queue.pop_front() {
         st.states += 1;
         if lists.insert(render(&list), ()).is_none() { st.distinct_lists += 1; }
@@ -171,6 +172,23 @@ pub fn explore<W: TW>(rep: &Report, prop: &str, depth: usize, cap: usize, do_sam
                 Err(_) => viol("panic", format!("an accessor panicked: {}", crate::exec::last_panic()), &hist),
                 Ok(Some(b)) => viol("inconsistent", b, &hist),
                 Ok(None) => {}
+            }
+        }
+        // ---- Clone::clone_from onto a differently shaped target must give an equal, identically behaving value
+        if prop == "C09" {
+            if let Some(prev) = prev_tree.as_ref() {
+                let r = catch_unwind(AssertUnwindSafe(|| in_subject(|| {
+                    let mut t: WeightedTreeIndex<W> = prev.clone();
+                    t.clone_from(&tree);
+                    (format!("{:?}", t) == format!("{:?}", tree), t.len() == tree.len())
+                })));
+                match r {
+                    Err(_) => viol("panic", format!("clone_from panicked: {}", crate::exec::last_panic()), &hist),
+                    Ok((same_dbg, same_len)) => if !same_dbg || !same_len { viol("clone_from", format!("clone_from onto a tree of another shape ({:?}) does not reproduce the source", prev), &hist) },
+                }
+            }
+            if st.states % 7 == 1 || prev_tree.is_none() {
+                prev_tree = Some(tree.clone());
             }
         }
         // ---- sampling in this state (C10)
